@@ -569,6 +569,7 @@ C16_H(cfg, run, pre) ==
      <<"C16.H.params-facilities", run.obs.read_ok => run.obs.params_after.facs = run.obs.params_before.facs>>,
      <<"C16.H.params-workplaces", run.obs.read_ok => run.obs.params_after.wps = run.obs.params_before.wps>>,
      <<"C16.H.params-components", run.obs.read_ok => run.obs.params_after.comps = run.obs.params_before.comps>>,
+     <<"C16.H.params-teams", run.obs.read_ok => run.obs.params_after.teams = run.obs.params_before.teams>>,
      <<"C16.H.params-project", run.obs.read_ok => run.obs.params_after.project = run.obs.params_before.project>> >>
 
 \* =========================== C19 ===========================================
